@@ -53,7 +53,16 @@ func (ex *Exec) argInt(v Value) int {
 }
 
 func (ex *Exec) nondet(site string, w int) *Term {
-	t := FreshVar(site, w)
+	if ex.fresh == nil {
+		ex.fresh = map[string]int{}
+	}
+	n := ex.fresh[site]
+	ex.fresh[site] = n + 1
+	name := site
+	if n > 0 {
+		name = fmt.Sprintf("%s#%d", site, n)
+	}
+	t := Var(name, w)
 	ex.nondets = append(ex.nondets, NondetVar{t.Name, t})
 	return t
 }
